@@ -1,4 +1,6 @@
 """C02 - instruction stream decodes exactly as CPython's dis."""
+from vf import progdiff as pd
+from vf import refworker as rw
 from vf.props.progbase import ProgProp
 
 
@@ -22,6 +24,25 @@ class C02(ProgProp):
             yield c
         for c in self.patch_api_cases(ctx):
             yield c
+        # opcodes that CPython's documentation dates (HISTORY in c09): in a version that had the opcode, its byte decodes
+        # to that name.  The byte value is the one the neighbouring versions' tables give the name (numbers did not move
+        # while a name lived in that era; pairs where the neighbours disagree are left out).
+        from vf.props import c09
+        x = rw.xd()
+        tabs = c09.tables(x)
+        chain = [(vt, n) for vt, n in c09.cpython_chain(tabs) if (2, 0) <= vt < (3, 6)]
+        for i, (vt, n) in enumerate(chain):
+            for name, ranges in sorted(c09.HISTORY.items()):
+                if not any(lo <= vt <= hi for lo, hi in ranges):
+                    continue
+                if name in ("LIST_APPEND", "SET_ADD") and (2, 6) <= vt <= (3, 1):
+                    continue        # these two moved (and gained an operand) in 2.7 / 3.1
+                nums = set()
+                for j in (i - 1, i + 1):
+                    if 0 <= j < len(chain) and chain[j][0][0] == vt[0] and name in tabs[chain[j][1]].opmap:
+                        nums.add(tabs[chain[j][1]].opmap[name])
+                if len(nums) == 1:
+                    yield {"k": "history", "v": "%d.%d" % vt, "name": name, "num": nums.pop()}
 
     def strata(self, ctx):
         from hypothesis import strategies as st
@@ -54,7 +75,35 @@ class C02(ProgProp):
         res.sample = {"host": h, "kind": "native code objects on the host, with and without current_offset", "source_head": case["src"][:200]}
         return res
 
+    def judge_history(self, case, ctx):
+        from vf.props.progbase import OLD_ASM
+        from vf.run import Result
+        res = Result()
+        v, name, num = case.get("v"), case.get("name"), case.get("num")
+        if v not in OLD_ASM or not isinstance(num, int) or not (0 <= num < 256) or not isinstance(name, str):
+            res.reject = "malformed-case"
+            return res
+        tab = self.old_tables(ctx, v)
+        code = bytes([num]) + (b"\x01\x00" if num >= tab.have_arg else b"")
+        built = self.old_file(ctx, v, None, raw_code=code)
+        x, err = pd.xdis_dump(built[4] + built[5], 100)
+        res.classes = ["version:" + v, "source:history-opcode"]
+        res.key = [v, name]
+        res.nontrivial = True
+        res.sample = {"version": v, "opcode": name, "byte": num, "oracle": "dis documentation dates + neighbouring tables' number"}
+        if err or "instrs" not in x["dis"][0] or not x["dis"][0]["instrs"]:
+            res.fail("C02|decode|%s|history-opcode|undecodable|%s" % (v, name), "%s: byte %d (%s, which Python %s had) cannot be decoded: %s" % (
+                v, num, name, v, (err or ["", x["dis"][0].get("instrs_err")])[1]))
+            return res
+        got = x["dis"][0]["instrs"][0]["n"]
+        if got.replace("+", "_") != name.replace("+", "_"):
+            res.fail("C02|decode|%s|history-opcode|%s" % (v, name), "%s: byte %d is %s in the neighbouring versions and Python %s had that opcode "
+                     "(dis documentation), xdis decodes it as %s" % (v, num, name, v, got))
+        return res
+
     def judge(self, case, ctx):
+        if case.get("k") == "history":
+            return self.judge_history(case, ctx)
         if case.get("k") == "host":
             return self.judge_host(case, ctx)
         res = super().judge(case, ctx)
